@@ -192,7 +192,7 @@ def gen(rng):
             p["index"] += 1000
         seen.add(p["index"])
     s["c17"] = {"seed": int(rng.integers(0, 2 ** 31)), "n_ops": int(rng.integers(1, 4)),
-                "kind": str(rng.choice(["ops", "ops", "relabel_results", "subnet"]))}
+                "kind": str(rng.choice(["ops", "ops", "relabel_results", "subnet", "continuous_with_results"]))}
     return s
 
 
@@ -240,6 +240,39 @@ def oracle(spec):
                 if m.any() and not np.array_equal(vb.loc[common].element.values[m], va.loc[common].element.values[m]):
                     fail("C17:fu:pipe-valve-element-rewritten", "fuse redirects junction references only", op=op_text(op))
                     break
+    elif v["kind"] == "continuous_with_results":
+        # relabelling a net that holds results: the stored result rows follow their elements
+        na, ea = netgen.try_run(spec, **oracles.TIGHT)
+        if ea is not None:
+            return {"status": "skip:" + type(ea).__name__}
+        nb = copy.deepcopy(na)
+        try:
+            which = str(rng.choice(["junction", "elements"]))
+            if which == "junction":
+                lk = {"junction": tb.create_continuous_junction_index(nb, start=int(rng.integers(0, 5)), store_old_index=True)}
+            else:
+                lk = tb.create_continuous_elements_index(nb, start=int(rng.integers(0, 5)), add_df_to_reindex=set())
+        except Exception as e:
+            fail("C17:continuous:raises:%s%s" % (type(e).__name__, ":pipe-valve" if has_pv else ""),
+                 "relabelling a net with results", exc=repr(e)[:150])
+        else:
+            dgl = dangling(nb)
+            if dgl:
+                fail("C17:continuous:dangling:%s.%s" % (dgl[0][0], dgl[0][2]), "no dangling references after relabelling", first=dgl[:3])
+            imap = {}
+            for t in oracles.res_tables(na):
+                el = t[4:]
+                m = lk.get(el) if isinstance(lk, dict) else None
+                if m is None:
+                    m = {int(i): int(i) for i in na[el].index}
+                imap[el] = {int(i): int(m.get(i, i)) for i in na[el].index}
+                if sorted(nb[t].index) != sorted(nb[el].index):
+                    fail("C17:continuous:result-index:%s" % el, "result rows carry their element's label", table=t,
+                         result_index=[int(x) for x in nb[t].index[:5]], element_index=[int(x) for x in nb[el].index[:5]])
+            d = oracles.compare_results(na, nb, atol=0.0, rtol=0.0, index_map=imap)
+            if d:
+                fail("C17:continuous:stored-results:%s:%s" % (d[0][0], d[0][1]), "stored results follow their elements under relabelling",
+                     first=d[:3], which=which)
     elif v["kind"] == "relabel_results":
         na, ea = netgen.try_run(spec, **oracles.TIGHT)
         if ea is not None:
